@@ -44,10 +44,11 @@ Lemma find_case_spec fd σ c : find_case fd σ = Some c ->
   In c (f_cases fd) /\ init c = entry_of σ.
 Proof.
   unfold find_case. intros H. apply find_some in H. destruct H as [Hin Hm]. split; auto.
-  unfold case_matches in Hm. apply andb_prop in Hm. destruct Hm as [Hm Hn].
+  unfold case_matches in Hm. apply andb_prop in Hm. destruct Hm as [Hm Hc].
+  apply andb_prop in Hm. destruct Hm as [Hm Hn].
   apply andb_prop in Hm. destruct Hm as [Hh Hs].
-  apply list_eqb_true in Hh. apply Bool.eqb_prop in Hs. apply Nat.eqb_eq in Hn.
-  unfold init, entry_of. now rewrite Hh, Hs, Hn.
+  apply list_eqb_true in Hh. apply Bool.eqb_prop in Hs, Hc. apply Nat.eqb_eq in Hn.
+  unfold init, entry_of. now rewrite Hh, Hs, Hn, Hc.
 Qed.
 
 Lemma exit_matches_spec o σ e : exit_matches o σ e = true ->
@@ -420,3 +421,35 @@ Example order_inverted_rejected :
     (Some (SSeq (SAct (ALock 4)) (SSeq (SAct (AOrder 4)) (SSeq (SAct (ALock 9))
           (SSeq (SAct (AUnlock 9)) (SAct (AUnlock 4)))))))] = false.
 Proof. vm_compute. reflexivity. Qed.
+
+(* tasks.Wait() must not be reached by a thread that still owns a task obligation (it would wait
+   for itself): shutdown = 0 (reaches AWaitTasks, only a "clean" contract case), Return = 1 owns one
+   obligation at entry.  Done before shutdown: accepted; Done deferred until after: rejected. *)
+Definition demo_shutdown : fdef :=
+  mkF "shutdown" false [mkC [0] false 0 [mkE 0 [] false 0]]
+    (Some (SSeq (SAct (AUnlock 0)) (SAct AWaitTasks))).
+Definition demo_return (deferred : bool) : fdef :=
+  mkF "Return" true [mkC [] false 1 [mkE 0 [] false 0]]
+    (Some (SSeq (SAct (ALock 0))
+          (if deferred
+           then SSeq (SCall 0 SSkip SSkip) (SAct ATasksDone)
+           else SSeq (SAct ATasksDone) (SCall 0 SSkip SSkip)))).
+
+Example wait_after_done_accepted : check_prog [demo_shutdown; demo_return false] = true.
+Proof. vm_compute. reflexivity. Qed.
+
+Example wait_own_task_rejected : check_prog [demo_shutdown; demo_return true] = false.
+Proof. vm_compute. reflexivity. Qed.
+
+(* and semantically: run directly (not through a contract) the deferred variant fails *)
+Example wait_own_task_execution :
+  exec [demo_shutdown; demo_return true]
+       (SSeq (SAct (ALock 0)) (SSeq (SCall 0 SSkip SSkip) (SAct ATasksDone)))
+       (mkS [] false 1) (RFail VWaitOwnTask).
+Proof.
+  eapply E_Seq. { apply E_Act. reflexivity. }
+  eapply E_SeqStop; [|reflexivity].
+  eapply E_CallFail; [reflexivity | reflexivity | ].
+  cbn. eapply E_Seq. { apply E_Act. reflexivity. }
+  apply E_ActFail. reflexivity.
+Qed.
